@@ -240,6 +240,15 @@ func verifHeadHealth(pw *Wrapper) uint32 { return pw.health }
 func verifWorkerStep(pw *Wrapper, phase0 string, health0 uint32) bool {
 	healthy := health0 == 0
 	sent := verif.CalledInIter(evHandler)
+	// each waiting phase is timed by its own interval: an unanswered
+	// registration is repeated after waitResponseTimeout, a refused or locally
+	// failed start only after startErrTimeout (the retry back-off)
+	if healthy && phase0 == ProxyPhaseStartErr && !(verif.CalledInIter("Time).Add") && verif.IterArg[time.Duration]("Time).Add", 1) == startErrTimeout) {
+		return false
+	}
+	if healthy && phase0 == ProxyPhaseWaitStart && !(verif.CalledInIter("Time).Add") && verif.IterArg[time.Duration]("Time).Add", 1) == waitResponseTimeout) {
+		return false
+	}
 	if !sent {
 		return pw.Phase == phase0 && (healthy || (phase0 != ProxyPhaseRunning && phase0 != ProxyPhaseWaitStart)) &&
 			(!healthy || (phase0 != ProxyPhaseNew && phase0 != ProxyPhaseCheckFailed))
